@@ -37,6 +37,7 @@ from .constants import DIAMETER_AGENT_CLIENT_MODE
 from .constants import DIAMETER_AGENT_SERVER_MODE
 from .constants import DIAMETER_AGENT_TRANSPORT_TYPE_TCP
 from .constants import DIAMETER_AGENT_TRANSPORT_TYPE_SCTP
+from .constants import DIAMETER_HEADER_LENGTH
 from .exceptions import AVPAttributeValueError
 from .exceptions import AVPParsingError
 from .exceptions import DataTypeError
@@ -205,18 +206,33 @@ class DiameterAssociation(object):
             diameter_conn_logger.debug("Grabbing data stream from "\
                                        "Transport Layer to Diameter Layer.")
 
-            try:
-                msgs = DiameterMessage.load(data_stream)
-                for msg in msgs:
-                    make_logging(msg, disable_else=True)
-                    self._recv_messages.put(msg)
-                
-                diameter_conn_logger.debug(f"Found {len(msgs)} Diameter "\
-                                           f"Message(s).")
-            except DECODING_ERRORS:
-                diameter_conn_logger.exception(f"A decoding error has "\
-                                               f"been raised due stream: "\
-                                               f"{data_stream.hex()}")
+            #: One message at a time: a message the decoder rejects must not
+            #: take the well-formed ones read along with it down (what is
+            #: delivered would depend on how TCP happened to cut the stream).
+            index = 0
+            while index < len(data_stream):
+                length = int.from_bytes(data_stream[index+1:index+4],
+                                        byteorder="big")
+                if length < DIAMETER_HEADER_LENGTH:
+                    #: Not a Diameter header: nothing tells where the next
+                    #: message would start.
+                    length = len(data_stream) - index
+
+                message_stream = data_stream[index:index+length]
+                index += length
+
+                try:
+                    msgs = DiameterMessage.load(message_stream)
+                    for msg in msgs:
+                        make_logging(msg, disable_else=True)
+                        self._recv_messages.put(msg)
+
+                    diameter_conn_logger.debug(f"Found {len(msgs)} Diameter "\
+                                               f"Message(s).")
+                except DECODING_ERRORS:
+                    diameter_conn_logger.exception(f"A decoding error has "\
+                                                   f"been raised due stream: "\
+                                                   f"{message_stream.hex()}")
 
             self.lock.release()
 
